@@ -158,6 +158,12 @@ pub fn standard_sources(run: &Run, with_formulas: bool) -> Vec<Source> {
     }
     if run.tier == Tier::Quick {
         v.push(Source::Fam(fam_s(run.seed)));
+        // one residue class modulo 128 of F(4,2) (four statements, conditions with up to two parents), compactly written
+        let mut f42 = fam_f(4, 2);
+        f42.first = run.seed % 128;
+        f42.step = 128;
+        f42.name = format!("F(4,2) class {} mod 128", run.seed % 128);
+        v.push(Source::FamCompact(f42));
     } else {
         v.push(Source::Fam(fam_a(3)));
         v.push(Source::Fam(fam_f(5, 1)));
